@@ -5,6 +5,7 @@ import (
 	"io"
 	"os"
 	"path/filepath"
+	"slices"
 	"strings"
 	"sync"
 	"time"
@@ -79,6 +80,7 @@ func (c *ClusterNode) syncUserCollections() error {
 		go func(dest string, req RPCSetNodeKeyValueRequest) {
 			defer wg.Done()
 			c.logger.Debug().Int("count", len(req.KeyValues)).Str("dest", dest).Msg("sending user collections")
+			verifSyncFault("records", slices.Index(c.Servers, dest))
 			rpcResp := RPCSetNodeKeyValueResponse{}
 			if err := c.RPCSetNodeKeyValue(&req, &rpcResp); err != nil {
 				errs <- fmt.Errorf("failed to send user collections to %s: %w", dest, err)
